@@ -350,7 +350,7 @@ func TestPortsRandom(t *testing.T) {
 func TestPortsAllSingles(t *testing.T) {
 	s := vf.Begin(t, P, "ports-all-values")
 	s.SetExhaustive()
-	step := vf.N(17, 1)
+	step := vf.Size(17, 1)
 	vf.Enum(s, func(yield func(portCase)) {
 		for p := 0; p <= 65535; p += step {
 			yield(portCase{uint16(p), uint16(65535 - p)})
